@@ -29,6 +29,31 @@ CHECKS = {
             'follow by induction since every valid state is a source.',
             'MT19937 bits fair/independent; bounded to N<=2 complete, N=3 on BFS representatives (supplementary).',
             '3/C06'),
+    'C02': ('exhaustive enumeration of (generator, operand) pairs over the complete Pauli group / map set / tableau space on the real code vs dense U^dag P U',
+            'All Hermitian generators (strings x +-) x all 4*4^N operators for N<=3 (as list, single Pauli, polynomial), all masks embedding n<N qubit '
+            'generators into N<=3 (4 thorough), all 11520 maps and all 34560 tableaux of N=2 x all 32 generators (+ masked ones); rotate-by-G-then-minus-G '
+            'and four-fold rotation histories on live objects; torch port at N<=2 (3 thorough).',
+            'Reference = exactly signed i*P*G rule cross-checked against dense exp(i pi/4 G) conjugation for N<=2; bounded N.',
+            '3/C02'),
+    'C03': ('exhaustive enumeration of the Clifford group (N<=2, all sign patterns) x Pauli group on the real code vs reference homomorphism and reconstructed unitary',
+            'Every one of the 24 / 11520 valid maps is applied to the complete Pauli group (4 phases); identity, generator rows, multiplicativity on all '
+            'pairs, phase linearity, and the literal existence of one unitary U with img(P)=U^dag P U (reconstructed from the intertwining equations) are '
+            'checked per map; masks/embed for all 1-qubit maps at every position of N<=3 and 2-qubit maps on the three masks of N=3; rotation maps vs '
+            'rotate_by for all generators N<=3; polynomial coefficients; state transforms; torch port.',
+            'Only valid maps are in scope; N=3 maps only through masks/rotation maps.',
+            '3/C03'),
+    'C04': ('exhaustive enumeration of map pairs/triples and BFS group closure with the library compose, vs reference automorphism composition',
+            'N=1: all 24^2 pairs and 24^3 triples; N=2: all 11520 maps x 10 generators on both sides, inverse of every map (two-sided, reference and '
+            'library), neutrality, anti-homomorphism, operand immutability and aliasing; thorough: all 11520^2 ordered pairs; BFS closure of {identity} under '
+            'the library compose reproduces exactly the independently enumerated group; z2inv on every 2x2 and 4x4 binary matrix (singular ones must raise).',
+            'Associativity for N=2 triples follows from compose == reference composition on all pairs (thorough) / on generator pairs (quick).',
+            '3/C04'),
+    'C07': ('exhaustive enumeration of (tableau, observable), (pure tableau, tableau) and (tableau, bit string) pairs on the real code vs trace formulas on dense matrices',
+            'All 34560 N=2 tableaux x the complete signed Pauli list and imaginary-phase Paulis; Paulis with all phases, monomials, four-term polynomials with '
+            'repeated strings and unreduced products on every 8th tableau + one per density matrix (all in thorough); overlaps: pure receivers x one argument per '
+            'density matrix of every rank and all arguments x every pure state; get_prob on all bit strings (sum to one); receiver/argument snapshots; torch port.',
+            'expect(state) on a mixed receiver raises NotImplementedError = abstention; bounded to N<=2 (N=3 supplementary in thorough).',
+            '3/C07'),
 }
 
 NOT_BUILT_REASON = 'check not built yet in this session (planned: DESIGN.md section 3); model checking applies'
